@@ -17,35 +17,47 @@ def contract(target, **options):
     return deco
 
 
+_touched = [False]     # an ANY took part in the clause being evaluated: the clause is not judged natively
+
+
 class _Any:
     """native stand-in for the value of an uninterpreted specification function: equal to everything
     (a clause that only names a result by such a function says nothing natively)"""
     def __eq__(self, other):
+        _touched[0] = True
         return True
 
     def __ne__(self, other):
+        _touched[0] = True
         return False
 
-    __hash__ = None
+    def __hash__(self):
+        return 0
 
     def __getitem__(self, k):
+        _touched[0] = True
         return self
 
     def __bool__(self):
+        _touched[0] = True
         return True
 
     def __iter__(self):
+        _touched[0] = True
         return iter(())
 
     def __len__(self):
+        _touched[0] = True
         return 0
 
     def __call__(self, *a, **k):
+        _touched[0] = True
         return self
 
     def __getattr__(self, name):
         if name.startswith('__'):
             raise AttributeError(name)
+        _touched[0] = True
         return self
 
 
@@ -55,6 +67,18 @@ ANY = _Any()
 def spec(fn=None, **options):
     if fn is None:
         if options.get('uninterpreted'):
+            native = options.get('native')
+            if native:
+                # the function a result is named after, natively: an expression over the parameters
+                def deco(f):
+                    names = f.__code__.co_varnames[:f.__code__.co_argcount]
+                    code = compile(native, '<native %s>' % f.__name__, 'eval')
+
+                    def g(*a):
+                        import importlib
+                        return eval(code, {'importlib': importlib}, dict(zip(names, a)))
+                    return g
+                return deco
             return lambda f: (lambda *a, **k: ANY)
         return lambda f: f
     return fn
@@ -64,14 +88,20 @@ def lemma(fn):
     return fn
 
 
+def _judged(v):
+    t = _touched[0] or isinstance(v, _Any)
+    _touched[0] = False
+    return None if t else bool(v)
+
+
 def requires(v):
     if _record is not None:
-        _record.append(('requires', None, bool(v)))
+        _record.append(('requires', None, _judged(v)))
 
 
 def ensures(v, label=None):
     if _record is not None:
-        _record.append(('ensures', label, bool(v)))
+        _record.append(('ensures', label, _judged(v)))
 
 
 def raises(*a, **k):
@@ -85,19 +115,37 @@ def invariant(*a, **k):
 decreases = modifies = option = local = induct = exclude = use = invariant
 
 
-def evaluate(contract_fn, args, result, olds):
+try:    # exception classes named in raises(...) clauses
+    from penman.exceptions import (PenmanError, ConstantError, GraphError, LayoutError, DecodeError,  # noqa: F401
+                                   SurfaceError, ModelError)
+except Exception:   # pragma: no cover  (the verifier's interpreter has no penman)
+    pass
+
+
+def evaluate(contract_fn, args, result, olds, whitebox=()):
     """run the contract natively: returns [(kind, label, bool or exception text)]"""
     global _record
     g = contract_fn.__globals__
-    saved = {k: g.get(k, _MISSING) for k in ('result',)}
+    # locals of the real function that a white-box clause mentions have no native value: ANY
+    wb = [n for n in whitebox if n in contract_fn.__code__.co_names
+          and n not in contract_fn.__code__.co_varnames]
+    saved = {k: g.get(k, _MISSING) for k in ['result'] + wb}
     g['result'] = result
+    for n in wb:
+        g[n] = ANY
     _state['olds'] = olds
     _record = []
     try:
-        try:
-            contract_fn(*args)
-        except Exception as e:   # a clause that cannot be evaluated natively
-            _record.append(('error', None, '%s: %s' % (type(e).__name__, e)))
+        stmts = _clauses(contract_fn)
+        names = contract_fn.__code__.co_varnames[:contract_fn.__code__.co_argcount]
+        ns = dict(g)          # one namespace, so that lambdas inside clauses see the parameters
+        ns.update(zip(names, args))
+        for code in stmts:
+            _touched[0] = False
+            try:
+                exec(code, ns)
+            except Exception as e:   # a clause that cannot be evaluated natively
+                _record.append(('error', None, '%s: %s' % (type(e).__name__, e)))
         return list(_record)
     finally:
         _record = None
@@ -109,6 +157,38 @@ def evaluate(contract_fn, args, result, olds):
 
 
 _MISSING = object()
+_clause_cache = {}
+
+
+def _clauses(fn):
+    """the contract's statements compiled one by one (an error in one clause does not hide the others),
+    with implies(a, b) read lazily as (not a) or b, as the verifier reads it"""
+    if fn in _clause_cache:
+        return _clause_cache[fn]
+    import ast, inspect, textwrap
+
+    class Lazy(ast.NodeTransformer):
+        def visit_Call(self, node):
+            self.generic_visit(node)
+            if isinstance(node.func, ast.Name) and node.func.id == 'implies' and len(node.args) == 2:
+                return ast.BoolOp(op=ast.Or(), values=[ast.UnaryOp(op=ast.Not(), operand=node.args[0]), node.args[1]])
+            return node
+
+    src = textwrap.dedent(inspect.getsource(fn))
+    fdef = [n for n in ast.parse(src).body if isinstance(n, ast.FunctionDef)][0]
+    out = []
+    for st in fdef.body:
+        if isinstance(st, ast.Expr) and isinstance(st.value, ast.Constant):
+            continue
+        if isinstance(st, ast.Expr) and isinstance(st.value, ast.Call) and isinstance(st.value.func, ast.Name) \
+                and st.value.func.id in ('invariant', 'decreases', 'induct', 'use', 'option', 'local', 'modifies',
+                                         'exclude', 'raises'):
+            continue     # proof-only clauses have no native meaning
+        m = ast.Module(body=[Lazy().visit(st)], type_ignores=[])
+        ast.fix_missing_locations(m)
+        out.append(compile(m, '<contract %s>' % fn.__name__, 'exec'))
+    _clause_cache[fn] = out
+    return out
 
 
 # ---- specification vocabulary, natively ---------------------------------------------------
@@ -269,7 +349,18 @@ def seq_eq(a, b):
 def mk(clsname, *fields):
     from penman import layout, surface
     if clsname == 'Push':
-        return layout.Push(*fields)
+        # Push objects compare by identity in penman; a specification means "a Push of this variable"
+        class _PushOf(layout.Push):
+            __slots__ = ()
+
+            def __eq__(self, other):
+                return isinstance(other, layout.Push) and other.variable == self.variable
+
+            def __ne__(self, other):
+                return not self.__eq__(other)
+
+            __hash__ = None
+        return _PushOf(*fields)
     if clsname == 'Pop':
         return layout.POP
     cls = getattr(surface, clsname)
@@ -328,3 +419,25 @@ def last_index(s, sub):
 def at_iteration_start(k, x):
     """proof hint vocabulary (use(...) clauses); no native meaning is needed"""
     return x
+
+
+def link_sidecars():
+    """The verifier reads all sidecar files as one namespace; natively each is a module.  Make every
+    specification function visible in every sidecar module (names a module defines itself win)."""
+    import importlib, os, types
+    d = os.path.join(os.path.dirname(os.path.dirname(os.path.dirname(os.path.abspath(__file__)))), 'contracts')
+    mods = []
+    for fn in sorted(os.listdir(d)):
+        if fn.endswith('.py') and not fn.startswith('_'):
+            mods.append(importlib.import_module('contracts.' + fn[:-3]))
+    table = {}
+    for m in mods:
+        for k, v in vars(m).items():
+            if isinstance(v, types.FunctionType) and getattr(v, '__module__', None) == m.__name__ \
+                    and not hasattr(v, '__contract_target__'):
+                table.setdefault(k, v)
+    for m in mods:
+        for k, v in table.items():
+            if k not in vars(m):
+                setattr(m, k, v)
+    return mods
